@@ -163,6 +163,20 @@ PROPS = {
              "non-trivial = every case (each word / segment is checked)",
         technique="Coq proof (word round-trip and exact limit guard; persisted segment round-trip; page alignment) + function-, byte- and API-level correspondence",
     ),
+    "C09": dict(
+        runs=[("iter", "", "iterrun", 600, 20000, 0)],
+        corr={"model:iterator", "driver-error", "harness-error"}, corr_held=False,
+        spec={"spec:iterator"}, spec_held=False,
+        rule="snapshot shapes built on the real collection with the merger parked: 0-4 in-memory segments of 1-6 ops "
+             "(Set/Del/Merge over 14 keys incl. empty key, shared prefixes, 0xff), optionally over a store-backed lower "
+             "level of 1-2 persisted rounds; one third 'shaped' (an old segment or lower level holding the first key and "
+             "newer single-op segments deleting/merging it, so cursors die during the leading-deletion skip); bounds nil / "
+             "empty / equal / inverted / sharing prefixes; DefaultNaiveSeekToMaxTries in {100,1,2,0}; programs of 1-12 "
+             "Next/SeekTo/Current calls incl. backward seeks and seeks after exhaustion; every call's result compared "
+             "with the model and with the specification iterator; non-trivial = >= 2 live entries in range and the "
+             "program seeks",
+        technique="Coq proof (refinement of the cursor/heap iterator, both fast paths and SeekTo restart, to the specification iterator; program-level theorem) + call-by-call correspondence",
+    ),
     "C12": dict(
         runs=[("history", "", "histrun", 300, 6000, 0)],
         corr={"model:footer-segments", "model:persist-kind", "model:walk-chain", "model:revert-content", "model:revert",
